@@ -282,6 +282,12 @@ def real(f: list[str]) -> str:
         return outcome(lambda: IBAN.generate(unhx(f[1]), bank_code=unhx(f[2]),
                                              account_code=unhx(f[3]), branch_code=unhx(f[4])),
                        lambda o: hx(str(o)))
+    if op == "iban.random":
+        from random import Random
+        kv = dict(x.split("=") for x in f[4:])
+        return outcome(lambda: IBAN.random(unhx(f[1]), random=Random(int(f[2])), use_registry=pb(f[3]),
+                                           **{k: unhx(v) for k, v in kv.items()}),
+                       lambda o: hx(str(o)))
     if op == "bban.from_components":
         kv = dict(x.split("=") for x in f[2:])
         return outcome(lambda: BBAN.from_components(unhx(f[1]), **{k: unhx(v) for k, v in kv.items()}),
